@@ -207,6 +207,14 @@ def task(t):
         with open(os.path.join(traces_dir, "p%06d-base.trace" % idx), "w") as f:
             f.write(base["_trace"])
         ntr += 1
+    if base["accepted"] and (base["run_exit"] is None or base["run_exit"] < 0 or base.get("run_timed_out")):
+        # the program was accepted but its executable dies by a signal or hangs: a miscompilation
+        # of some construct (other properties' territory). Whether it crashes can depend on code
+        # layout, so such a program cannot serve as a reference and is discarded (and counted).
+        base["accepted"] = False
+        base["errors"] = ["<base executable killed by signal %s>" % base["run_exit"]]
+        r["base_accepted"] = False
+        r["base"] = public(base)
     if not base["accepted"]:
         r["base_files"] = base_files
         return r
